@@ -127,7 +127,7 @@ class Gen:
             items[self.r.randrange(len(items))] = self.r.choice([F(1.0), F(0.5), S("1"), N_, L([I(1)])])
             kv = [(kk, L(items) if kk == key else (vv if len(PV.to_py(vv, {})) == len(items) else L([I(1)] * len(items)))) for kk, vv in kv]
         elif bad == "column":
-            kv[k] = (key, self.r.choice([I(3), N_, F(1.0), S("12"), O_, D([(I(1), I(2))])]))
+            kv[k] = (key, self.r.choice([I(3), N_, F(1.0), S("12"), O_, D([(I(1), I(2))]), ("G", items), ("G", [])]))
         elif bad == "notdict":
             return self.r.choice([L([L([I(1), I(2), I(3), I(4)])]), N_, S("ACGT"), I(4), O_])
         return D(kv)
@@ -260,7 +260,8 @@ class Gen:
             m, s = self.slot(), self.slot()
             n = r.randint(1, 12)
             seqs = [self.seq_text(protein, width, with_unknown=not clean) for _ in range(n)]
-            node = L(S(x) for x in seqs) if self.chance(0.8) else U(S(x) for x in seqs)
+            k = r.random()
+            node = L(S(x) for x in seqs) if k < 0.7 else (U(S(x) for x in seqs) if k < 0.85 else ("G", [S(x) for x in seqs]))
             name = r.choice([None, None, N_, S("motif"), S("M \u00e9 1")])
             self.emit("cr", m, node, B(protein) if protein or self.chance(0.5) else None, name)
             which = "s"
@@ -351,11 +352,15 @@ class Gen:
         if self.chance(0.5):
             self.emit("ms", s)
         q, n = self.make_seq(protein)
+        early = self.chance(0.3)
+        if early:
+            # the distribution is cached on first use: before any calculate, and again after it
+            self.emit("sd", self.slot(), s)
         sc = self.slot()
         self.emit("ca", sc, s, ("V", q))
         self.use_scores(sc)
         self.use_pvalues(s, width, protein)
-        if self.chance(0.4):
+        if early or self.chance(0.4):
             self.emit("sd", self.slot(), s)
         rc = self.slot()
         self.emit("rc", rc, s)
@@ -389,13 +394,20 @@ class Gen:
         elif order == "desc":
             widths.sort(reverse=True)
         motifs = []
+        earlier = []
         for w in widths:
             other = self.chance(0.12)
             s = self.make_motif(protein != other, w if not other else min(w, 5), clean=self.chance(0.6))
             motifs.append((s, w))
             sc = self.slot()
             self.emit("ca", sc, s, ("V", q))
-            self.use_scores(sc)
+            if self.chance(0.7):
+                self.use_scores(sc)
+            if not other:
+                earlier.append(sc)
+            if len(earlier) >= 2 and self.chance(0.5):
+                # scores of an earlier (narrower / wider) motif, used after the sequence was reconfigured
+                self.use_scores(r.choice(earlier[:-1]))
         if self.chance(0.5) and motifs:
             # a copy of the sequence goes its own way: reconfigure one, use the other
             q2 = self.slot()
@@ -516,7 +528,7 @@ class Gen:
             protein = False
         corrupt = r.choice([None, None, None, None, "trunc", "garble", "dropline", "crlf", "binary"])
         data = self.file_text(fmt, protein, r.randint(0, 4) if self.chance(0.9) else r.randint(20, 60), corrupt)
-        mode = r.choice(["p", "b", "b", "r1", "r2", "r7", "r64", "r8191", "r8192", "r100000", "r%d" % r.randint(1, 300)])
+        mode = r.choice(["p", "pb", "pP", "b", "b", "r1", "r2", "r7", "r64", "r8191", "r8192", "r100000", "r%d" % r.randint(1, 300)])
         if self.chance(0.35):
             # a real file on disk, already used before load() sees it: the loader goes on from there
             n = len(data)
@@ -527,12 +539,12 @@ class Gen:
             mode = r.choice(["fb%d" % k, "fb%d" % k, "fu%d" % k, "fk%d" % k, "fz%d" % k, "fn%d" % r.randint(0, nl + 1), "fe", "fx"])
         if not protein and self.chance(0.2):
             # a file object that misbehaves on a later read(): raises, returns non-bytes / too much, closes itself
-            # only the two kinds of failure that lightmotif-py turns into an io::Error without leaving a Python
-            # exception pending: an OSError with an errno, and too many bytes.  The other kinds (exception without
-            # errno, non-bytes, file closing itself: modes k o s n c of the worker) leave the exception pending in
-            # the thread state (known finding F27) and what follows depends on the call path.
-            what = r.choice("pm")
-            kth = r.choice([2, 2, 3, 4, 5, 7])
+            # every kind of failure (since e7689c9 the loader raises the exception of read() itself): KeyError,
+            # PermissionError with errno, OSError without errno, str / None instead of bytes, too many bytes, a file
+            # that closes itself (ValueError from then on)
+            what = r.choice("pmkosncpm")
+            # 1000: the fault never fires - what is exercised then is the iteration going on after *parse* errors
+            kth = r.choice([2, 2, 3, 4, 5, 7, 1000])
             chunk = r.choice([1, 5, 20, 64, 300, 8192])
             mode = "X%s%dc%d" % (what, kth, chunk)
         fmt_arg = S(fmt) if fmt != "jaspar" or self.chance(0.5) else None
@@ -657,6 +669,13 @@ class Gen:
                 self.emit("ln", ld, r.choice([1, 1, 2]))
         for _ in range(r.randint(3, 8)):
             self.emit("ln", r.choice(loaders), r.choice([1, 1, 2, 3, 40]))
+            if self.chance(0.25):
+                # unrelated calls in between: a partly consumed loader keeps its place
+                m = self.make_motif(False, r.randint(1, 5), clean=True)
+                q, _ = self.make_seq(False, r.choice([20, 64]))
+                sc = self.slot()
+                self.emit("ca", sc, m, ("V", q))
+                self.emit(r.choice(["mx", "am"]), sc)
         if self.chance(0.3):
             self.emit("dl", files[0][0])
             self.emit("ln", r.choice(loaders), 2)
@@ -689,7 +708,12 @@ class Gen:
         self.emit("nx", a, "*")
         self.emit("nx", b, "*")
         if self.chance(0.3):
-            self.emit("mt", s1, r.choice([2, 3]), "r")
+            self.emit("mt", s1, r.choice([2, 3]), r.choice(["r", "r", "s"]))
+        if self.chance(0.1):
+            # a matrix whose distribution was never asked for: first p-value while another thread calculates
+            s3 = self.make_motif(False, r.randint(2, 6), clean=True)
+            self.emit("mt", s3, 1, "f")
+            self.emit("pv", s3, F(1.0), None)
 
     def t_equal(self):
         """==, copies and str: equal data from different routes, the number of sequences, other alphabets"""
